@@ -44,6 +44,22 @@ def split_bait(rw, policy):
         b = corpus.sample_blocks(rw, 1, min_len=8, max_len=40)[0]
         return [it for it in b if it[0] not in ("tag", "JUMPDEST") and it[0] not in evm.PSEUDO_PUSH and it[0] != "ASSIGNIMMUTABLE"] or \
             B.gen_block(rw, profile="split", pseudo=False)
+    if r < 0.45:
+        # (i) neutral operations next to a split instruction: the optimizer empties that sub-block completely;
+        # (ii) split instructions whose operands sit around stack positions 9..11 (two-digit variable indices)
+        items = []
+        depth = rw.choice([2, 4, 9, 10, 11, 12])
+        for _ in range(rw.choice([1, 2, 3])):
+            neutral = rw.choice([[("PUSH", "0"), ("ADD", None)], [("PUSH", "1"), ("MUL", None)], [("DUP1", None), ("POP", None)],
+                                 [("SWAP1", None), ("SWAP1", None)], [("PUSH", "0"), ("OR", None)], []])
+            k = rw.choice([depth, depth - 1, max(1, depth - 2), 1, 2])
+            k = max(1, min(16, k))
+            split = rw.choice([[("DUP%d" % k, None), ("DUP1", None), ("LOG0", None)], [("GAS", None), ("POP", None)],
+                               [("DUP%d" % k, None), ("DUP%d" % max(1, k - 1), None), ("DUP1", None), ("CALLDATACOPY", None)],
+                               [("DUP%d" % k, None), ("DUP1", None), ("DUP1", None), ("LOG1", None)]])
+            body = rw.choice([[("SWAP1", None), ("POP", None)], [("DUP2", None), ("ADD", None)], [], [("PUSH", "7"), ("SWAP1", None), ("SUB", None)]])
+            items += rw.choice([neutral + split + body, body + split + neutral, neutral + split + neutral + split])
+        return items
     L = rw.choice([6, 10, 14, 18, 21, 22, 23, 24, 26, 30]) if policy == "-partition" else rw.choice([4, 8, 12, 18, 24])
     prof = "memory" if policy != "none" and rw.random() < 0.5 else "split"
     b = B.gen_block(rw, profile=prof, length=L, pseudo=False, ending=rw.random() < 0.4)
@@ -163,6 +179,26 @@ def check_records(op, res, policy, summ, subset_desc):
                     viols.append({"class": ["src-stack-chain", "too-large", policy],
                                   "detail": "%s: |src_ws|=%d, its instructions need %d, the previous sub-blocks leave %d | subs %r" % (
                                       key, n_src, need_k, left_k, subs), "replay": rp})
+        # (c') semantically: each sub-block's specification, evaluated from the stack the previous sub-blocks leave, must compute
+        #      what the sub-block's own instructions compute (reference evaluator R3 against reference interpreter R1)
+        if s is not None and subset_desc == "greedy":
+            from gsim.checks import c02
+            from gsim.ref import speceval as SE
+            inner2 = [list(x) for x in subs]
+            for k in range(m - 1):
+                inner2[k] = inner2[k][:-1]
+                inner2[k + 1] = inner2[k + 1][1:]
+            for key, spec in s["sfs"].items():
+                if not key.startswith(name + "_") or not key[len(name) + 1:].isdigit():
+                    continue
+                k = int(key[len(name) + 1:])
+                if k >= m:
+                    continue
+                dummy = {"evals": 0, "keys": set(), "probes": {}}
+                v = c02.check_spec(spec, SE.items_of_plain(inner2[k]), 1000 + k, 4, 2, dummy)
+                summ["evals"] += dummy["evals"]
+                if v is not None:
+                    viols.append({"class": ["sub-block-spec"] + v[0][:2] + [policy], "detail": "%s: %s | sub-block %r" % (key, v[1], inner2[k]), "replay": rp})
         # (d) rebuild == independent positional rebuild
         exp = positional_rebuild(rec)
         got = [tuple(x) for x in rec["result"]]
